@@ -327,6 +327,9 @@ func c11Gen(r *Rng) (*c11World, string) {
 			case 0:
 				l := []*c11File{lib, lib2}[r.Intn(2)]
 				ref = c11Ref{kind: "import", target: l.name}
+				if r.Chance(8) && !missingUsed {
+					ref.target, ref.missing, missingUsed = abs("a/missing2.tpl"), true, true
+				}
 			case 1, 2:
 				if i+1 >= len(order) {
 					continue
@@ -335,6 +338,9 @@ func c11Gen(r *Rng) (*c11World, string) {
 				ref = c11Ref{kind: r.Pick([]string{"ssi", "ssiparsed"}), target: t.name}
 				if ref.kind == "ssi" && (f.extends != nil) {
 					ref.kind = "ssiparsed"
+				}
+				if r.Chance(8) && !missingUsed {
+					ref.target, ref.missing, missingUsed = abs("missing.tpl"), true, true
 				}
 			default:
 				if i+1 >= len(order) {
@@ -384,8 +390,83 @@ func c11Gen(r *Rng) (*c11World, string) {
 	return w, order[0].name
 }
 
+// c11LazySequences: one lazy include node executed with a sequence of names (existing, missing, repeated),
+// on one compiled template executed several times.
+func c11LazySequences(c *C) {
+	r := c.R
+	files := map[string]string{"/dir/a.tpl": "[A {{ n }}]", "/dir/b.tpl": "[B]", "/other/a.tpl": "[OTHER-A]", "/dir/main.tpl": "", "/a.tpl": "[ROOT-A]"}
+	ifExists := r.Chance(60)
+	tail := ""
+	if ifExists {
+		tail = " if_exists"
+	}
+	files["/dir/main.tpl"] = "{% for n in names %}<{% include n" + tail + " %}>{% endfor %}"
+	set, loader := newSet(files)
+	tpl, err := set.FromFile("/dir/main.tpl")
+	if err != nil {
+		c.Fail("compile-error", D{"files": files, "error": err.Error()})
+		return
+	}
+	content := map[string]string{"a.tpl": "[A a.tpl]", "b.tpl": "[B]", "/other/a.tpl": "[OTHER-A]", "../a.tpl": "[ROOT-A]", "./a.tpl": "[A ./a.tpl]"}
+	pool := []string{"a.tpl", "b.tpl", "missing.tpl", "/other/a.tpl", "../a.tpl", "gone/x.tpl", "./a.tpl", "missing.tpl"}
+	for ex := 0; ex < 3; ex++ {
+		var names []string
+		for i := 1 + r.Intn(6); i > 0; i-- {
+			names = append(names, pool[r.Intn(len(pool))])
+		}
+		var want strings.Builder
+		wantErr := ""
+		for _, n := range names {
+			if txt, ok := content[n]; ok {
+				want.WriteString("<" + txt + ">")
+			} else if ifExists {
+				want.WriteString("<>")
+			} else {
+				wantErr = n
+				break
+			}
+		}
+		loader.reset()
+		out, xerr := tpl.Execute(pongo2.Context{"names": names})
+		c.Eval(1)
+		d := D{"files": files, "names": names, "execution": ex, "output": q(out), "error": errStr(xerr)}
+		if wantErr != "" {
+			if xerr == nil {
+				d["expected"] = "an error naming " + wantErr
+				c.Fail("missing-template-not-reported", d)
+				return
+			}
+			continue
+		}
+		if xerr != nil || out != want.String() {
+			d["expected"] = q(want.String())
+			c.Fail("composition-mismatch", d)
+			return
+		}
+		_, hits := loader.snapshotGets()
+		existing := 0
+		for _, n := range names {
+			if _, ok := content[n]; ok {
+				existing++
+			}
+		}
+		if len(hits) != existing {
+			d["successful_fetches"] = hits
+			d["expected_fetches"] = existing
+			c.Fail("fetch-accounting", d)
+			return
+		}
+	}
+	c.Cover("lazy_name_sequences")
+	c.Nontrivial("lazyseq:" + files["/dir/main.tpl"] + fmt.Sprint(r.U64()%1000))
+}
+
 func c11Run(c *C) {
 	r := c.R
+	if c.Idx%6 == 5 {
+		c11LazySequences(c)
+		return
+	}
 	if c11Root == "" {
 		c11Init()
 	}
